@@ -1682,12 +1682,17 @@ func builtinInsertSorted(env *LEnv, args *LVal) *LVal {
 	}
 	var v *LVal
 	var cells []*LVal
+	// The result is sized from the cells the search ran over, not from
+	// list.Len() now: the predicate and the key function are user code and
+	// may have grown or shrunk the vector in place meanwhile (append!, ?del!),
+	// which left Go nil cells in the result or indexed past its end.
+	n := len(inCells)
 	switch typespec.Str {
 	case "vector":
-		v = Array(QExpr([]*LVal{Int(1 + list.Len())}), nil)
+		v = Array(QExpr([]*LVal{Int(1 + n)}), nil)
 		cells = seqCells(v)
 	case "list":
-		cells = make([]*LVal, 1+list.Len())
+		cells = make([]*LVal, 1+n)
 		v = QExpr(cells)
 	default:
 		return env.Errorf("type specifier is invalid: %v", typespec)
